@@ -64,6 +64,8 @@ EncFields(t, fl, vals, tns, poly, k) ==
                    ELSE IF x # Nil \/ f.min > 0 THEN EncElem(f.t, x, ns, f.n, tns, poly)
                    ELSE <<>>
        IN here \o EncFields(t, fl, vals, tns, poly, k + 1)
+\* the public type name of a class (`name` identifies the class in the model; two classes may share a type name across namespaces)
+TN(t) == IF "tname" \in DOMAIN t THEN t.tname ELSE t.name
 \* runtime class of an object value: the declared type or one of its registered subclasses
 RECURSIVE Find(_, _)
 Find(subs, cls) == IF subs = <<>> THEN [k |-> "none"] ELSE IF Head(subs).name = cls THEN Head(subs) ELSE Find(Tail(subs), cls)
@@ -77,7 +79,7 @@ EncElem(t, v, ns, name, tns, poly) ==
            fl == FlatFields(rt)
            \* without polymorphism exactly the declared class' fields are written
            vals == [k \in 1..Len(fl) |-> v[3][k]]
-       IN << S(ns, name) >> \o (IF poly /\ rt.name # t.name THEN << <<"X", rt.ns, rt.name>> >> ELSE <<>>)
+       IN << S(ns, name) >> \o (IF poly /\ rt.name # t.name THEN << <<"X", rt.ns, TN(rt)>> >> ELSE <<>>)
           \o AttrTok(fl, vals) \o EncFields(rt, fl, vals, tns, poly, 1) \o << E >>
   ELSE \* wrapped array
        << S(ns, name) >> \o EncItems(t.of, v[2], ItemNs(t, tns), ItemName(t), tns, poly, 1) \o << E >>
@@ -105,7 +107,7 @@ Response(c) ==
 RECURSIVE HdrToks(_, _, _, _, _, _)
 HdrToks(hts, hvals, tns, poly, explicitnil, k) ==
   IF k > Len(hts) THEN <<>>
-  ELSE (IF hvals[k] = Nil /\ ~explicitnil THEN <<>> ELSE EncElem(hts[k], hvals[k], hts[k].ns, hts[k].name, tns, poly))
+  ELSE (IF hvals[k] = Nil /\ ~explicitnil THEN <<>> ELSE EncElem(hts[k], hvals[k], hts[k].ns, TN(hts[k]), tns, poly))
        \o HdrToks(hts, hvals, tns, poly, explicitnil, k + 1)
 Soap(env, hdr, body) == << S(env, "Envelope") >> \o (IF hdr = <<>> THEN <<>> ELSE << S(env, "Header") >> \o hdr \o << E >>)
                         \o << S(env, "Body") >> \o body \o << E, E >>
